@@ -38,7 +38,7 @@ Definition W_IDGEN := 1.      (* idgen.next: panic("overflow ID") *)
 Definition W_PCALL := 2.      (* tgtAns.pcall.PipelineRecv on a nil PipelineCaller *)
 Definition W_INDEX := 3.      (* c.questions[id] = q / c.exports[id] = ee with id > len *)
 Definition W_BOOTERR := 4.    (* handleBootstrap: panic(err) *)
-Definition W_F14 := 14.       (* sender lock never released: every later sender blocks *)
+Definition W_F14 := 14.       (* handleCall leaves the sender lock taken: every later sender blocks *)
 Definition W_F15 := 15.       (* handleCall: annotate(nil) *)
 Definition W_F16 := 16.       (* shutdown: a.releaseMsg() is nil *)
 Definition W_F17 := 17.       (* handleReturn: clearCapTable(nil) *)
@@ -55,14 +55,14 @@ Definition cfg_fixed := mkCfg true true true true true true true true.
 (* capability descriptors (rpc.capnp CapDescriptor), projected *)
 Inductive desc := DNone | DSH (i : Z) | DSP (i : Z) | DRH (i : Z) | DOther.
 (* what a *capnp.Client held in a table of the Conn denotes *)
-Inductive cap := CNull | CErr | CLocal (j : Z) | CImp (i g : Z) | CEmb (e j : Z).
+Inductive cap := CNull | CErr | CLocal (j : Z) | CImp (i g : Z) | CEmb (e : Z).
 (* payload content, as far as capnp.Transform can see it *)
 Inductive pfield := PNull | PCap (k : Z) | POther | PBad.
 Inductive content := KNull | KCap (k : Z) | KStruct (fs : list pfield) | KOther.
 Inductive tres := TNull | TIface (k : Z) | TValid | TErr.
 
 Definition znth {A} (i : Z) (l : list A) : option A :=
-  if i <? 0 then None else nth_error l (Z.to_nat i).
+  if (i <? 0) || (Z.of_nat (length l) <=? i) then None else nth_error l (Z.to_nat i).
 
 (* capnp.Transform followed by Ptr.Interface() *)
 Definition transform_eval (c : content) (x : list Z) : tres :=
@@ -234,13 +234,12 @@ Definition expent := (cap * Z)%type.        (* client, wireRefs *)
 Record impent := mkImp { i_wire : Z; i_gen : Z; i_refs : Z }.
                                             (* i_refs: strong references on the current client;
                                                0 = dead, its Shutdown is still to run (s_dead) *)
-Record embent := mkEmb { e_srv : Z; e_refs : Z }.
+Record embent := mkEmb { e_cap : cap; e_refs : Z }.
                                             (* e_refs strong references on the promised client *)
 Inductive hstate := HBoot (q : Z) | HCap (c : cap) | HGone.
 Record state := mkState {
   s_shut : bool;
   s_boot : bool;
-  s_sendlk : bool;
   s_qs : tbl question;
   s_qgen : idgen;
   s_ans : list (Z * answer);
@@ -258,37 +257,40 @@ Record state := mkState {
   s_allocs : Z;
   s_busy : list (Z * Z * Z);
   s_dead : list (Z * Z);
+  s_lcalls : list (Z * Z);
+  s_ecalls : list (Z * Z * Z);
   s_sent : list (Z * Z);
   s_rel : list (Z * Z);
   s_out : list output
 }.
-Definition set_shut (v : bool) (s : state) : state := mkState v (s_boot s) (s_sendlk s) (s_qs s) (s_qgen s) (s_ans s) (s_exp s) (s_egen s) (s_imp s) (s_impgen s) (s_emb s) (s_mgen s) (s_queue s) (s_handles s) (s_lrefs s) (s_ndeliv s) (s_ncall s) (s_allocs s) (s_busy s) (s_dead s) (s_sent s) (s_rel s) (s_out s).
-Definition set_boot (v : bool) (s : state) : state := mkState (s_shut s) v (s_sendlk s) (s_qs s) (s_qgen s) (s_ans s) (s_exp s) (s_egen s) (s_imp s) (s_impgen s) (s_emb s) (s_mgen s) (s_queue s) (s_handles s) (s_lrefs s) (s_ndeliv s) (s_ncall s) (s_allocs s) (s_busy s) (s_dead s) (s_sent s) (s_rel s) (s_out s).
-Definition set_sendlk (v : bool) (s : state) : state := mkState (s_shut s) (s_boot s) v (s_qs s) (s_qgen s) (s_ans s) (s_exp s) (s_egen s) (s_imp s) (s_impgen s) (s_emb s) (s_mgen s) (s_queue s) (s_handles s) (s_lrefs s) (s_ndeliv s) (s_ncall s) (s_allocs s) (s_busy s) (s_dead s) (s_sent s) (s_rel s) (s_out s).
-Definition set_qs (v : tbl question) (s : state) : state := mkState (s_shut s) (s_boot s) (s_sendlk s) v (s_qgen s) (s_ans s) (s_exp s) (s_egen s) (s_imp s) (s_impgen s) (s_emb s) (s_mgen s) (s_queue s) (s_handles s) (s_lrefs s) (s_ndeliv s) (s_ncall s) (s_allocs s) (s_busy s) (s_dead s) (s_sent s) (s_rel s) (s_out s).
-Definition set_qgen (v : idgen) (s : state) : state := mkState (s_shut s) (s_boot s) (s_sendlk s) (s_qs s) v (s_ans s) (s_exp s) (s_egen s) (s_imp s) (s_impgen s) (s_emb s) (s_mgen s) (s_queue s) (s_handles s) (s_lrefs s) (s_ndeliv s) (s_ncall s) (s_allocs s) (s_busy s) (s_dead s) (s_sent s) (s_rel s) (s_out s).
-Definition set_ans (v : list (Z * answer)) (s : state) : state := mkState (s_shut s) (s_boot s) (s_sendlk s) (s_qs s) (s_qgen s) v (s_exp s) (s_egen s) (s_imp s) (s_impgen s) (s_emb s) (s_mgen s) (s_queue s) (s_handles s) (s_lrefs s) (s_ndeliv s) (s_ncall s) (s_allocs s) (s_busy s) (s_dead s) (s_sent s) (s_rel s) (s_out s).
-Definition set_exp (v : tbl expent) (s : state) : state := mkState (s_shut s) (s_boot s) (s_sendlk s) (s_qs s) (s_qgen s) (s_ans s) v (s_egen s) (s_imp s) (s_impgen s) (s_emb s) (s_mgen s) (s_queue s) (s_handles s) (s_lrefs s) (s_ndeliv s) (s_ncall s) (s_allocs s) (s_busy s) (s_dead s) (s_sent s) (s_rel s) (s_out s).
-Definition set_egen (v : idgen) (s : state) : state := mkState (s_shut s) (s_boot s) (s_sendlk s) (s_qs s) (s_qgen s) (s_ans s) (s_exp s) v (s_imp s) (s_impgen s) (s_emb s) (s_mgen s) (s_queue s) (s_handles s) (s_lrefs s) (s_ndeliv s) (s_ncall s) (s_allocs s) (s_busy s) (s_dead s) (s_sent s) (s_rel s) (s_out s).
-Definition set_imp (v : list (Z * impent)) (s : state) : state := mkState (s_shut s) (s_boot s) (s_sendlk s) (s_qs s) (s_qgen s) (s_ans s) (s_exp s) (s_egen s) v (s_impgen s) (s_emb s) (s_mgen s) (s_queue s) (s_handles s) (s_lrefs s) (s_ndeliv s) (s_ncall s) (s_allocs s) (s_busy s) (s_dead s) (s_sent s) (s_rel s) (s_out s).
-Definition set_impgen (v : Z) (s : state) : state := mkState (s_shut s) (s_boot s) (s_sendlk s) (s_qs s) (s_qgen s) (s_ans s) (s_exp s) (s_egen s) (s_imp s) v (s_emb s) (s_mgen s) (s_queue s) (s_handles s) (s_lrefs s) (s_ndeliv s) (s_ncall s) (s_allocs s) (s_busy s) (s_dead s) (s_sent s) (s_rel s) (s_out s).
-Definition set_emb (v : tbl embent) (s : state) : state := mkState (s_shut s) (s_boot s) (s_sendlk s) (s_qs s) (s_qgen s) (s_ans s) (s_exp s) (s_egen s) (s_imp s) (s_impgen s) v (s_mgen s) (s_queue s) (s_handles s) (s_lrefs s) (s_ndeliv s) (s_ncall s) (s_allocs s) (s_busy s) (s_dead s) (s_sent s) (s_rel s) (s_out s).
-Definition set_mgen (v : idgen) (s : state) : state := mkState (s_shut s) (s_boot s) (s_sendlk s) (s_qs s) (s_qgen s) (s_ans s) (s_exp s) (s_egen s) (s_imp s) (s_impgen s) (s_emb s) v (s_queue s) (s_handles s) (s_lrefs s) (s_ndeliv s) (s_ncall s) (s_allocs s) (s_busy s) (s_dead s) (s_sent s) (s_rel s) (s_out s).
-Definition set_queue (v : list Z) (s : state) : state := mkState (s_shut s) (s_boot s) (s_sendlk s) (s_qs s) (s_qgen s) (s_ans s) (s_exp s) (s_egen s) (s_imp s) (s_impgen s) (s_emb s) (s_mgen s) v (s_handles s) (s_lrefs s) (s_ndeliv s) (s_ncall s) (s_allocs s) (s_busy s) (s_dead s) (s_sent s) (s_rel s) (s_out s).
-Definition set_handles (v : list hstate) (s : state) : state := mkState (s_shut s) (s_boot s) (s_sendlk s) (s_qs s) (s_qgen s) (s_ans s) (s_exp s) (s_egen s) (s_imp s) (s_impgen s) (s_emb s) (s_mgen s) (s_queue s) v (s_lrefs s) (s_ndeliv s) (s_ncall s) (s_allocs s) (s_busy s) (s_dead s) (s_sent s) (s_rel s) (s_out s).
-Definition set_lrefs (v : list (Z * Z)) (s : state) : state := mkState (s_shut s) (s_boot s) (s_sendlk s) (s_qs s) (s_qgen s) (s_ans s) (s_exp s) (s_egen s) (s_imp s) (s_impgen s) (s_emb s) (s_mgen s) (s_queue s) (s_handles s) v (s_ndeliv s) (s_ncall s) (s_allocs s) (s_busy s) (s_dead s) (s_sent s) (s_rel s) (s_out s).
-Definition set_ndeliv (v : Z) (s : state) : state := mkState (s_shut s) (s_boot s) (s_sendlk s) (s_qs s) (s_qgen s) (s_ans s) (s_exp s) (s_egen s) (s_imp s) (s_impgen s) (s_emb s) (s_mgen s) (s_queue s) (s_handles s) (s_lrefs s) v (s_ncall s) (s_allocs s) (s_busy s) (s_dead s) (s_sent s) (s_rel s) (s_out s).
-Definition set_ncall (v : Z) (s : state) : state := mkState (s_shut s) (s_boot s) (s_sendlk s) (s_qs s) (s_qgen s) (s_ans s) (s_exp s) (s_egen s) (s_imp s) (s_impgen s) (s_emb s) (s_mgen s) (s_queue s) (s_handles s) (s_lrefs s) (s_ndeliv s) v (s_allocs s) (s_busy s) (s_dead s) (s_sent s) (s_rel s) (s_out s).
-Definition set_allocs (v : Z) (s : state) : state := mkState (s_shut s) (s_boot s) (s_sendlk s) (s_qs s) (s_qgen s) (s_ans s) (s_exp s) (s_egen s) (s_imp s) (s_impgen s) (s_emb s) (s_mgen s) (s_queue s) (s_handles s) (s_lrefs s) (s_ndeliv s) (s_ncall s) v (s_busy s) (s_dead s) (s_sent s) (s_rel s) (s_out s).
-Definition set_busy (v : list (Z * Z * Z)) (s : state) : state := mkState (s_shut s) (s_boot s) (s_sendlk s) (s_qs s) (s_qgen s) (s_ans s) (s_exp s) (s_egen s) (s_imp s) (s_impgen s) (s_emb s) (s_mgen s) (s_queue s) (s_handles s) (s_lrefs s) (s_ndeliv s) (s_ncall s) (s_allocs s) v (s_dead s) (s_sent s) (s_rel s) (s_out s).
-Definition set_dead (v : list (Z * Z)) (s : state) : state := mkState (s_shut s) (s_boot s) (s_sendlk s) (s_qs s) (s_qgen s) (s_ans s) (s_exp s) (s_egen s) (s_imp s) (s_impgen s) (s_emb s) (s_mgen s) (s_queue s) (s_handles s) (s_lrefs s) (s_ndeliv s) (s_ncall s) (s_allocs s) (s_busy s) v (s_sent s) (s_rel s) (s_out s).
-Definition set_sent (v : list (Z * Z)) (s : state) : state := mkState (s_shut s) (s_boot s) (s_sendlk s) (s_qs s) (s_qgen s) (s_ans s) (s_exp s) (s_egen s) (s_imp s) (s_impgen s) (s_emb s) (s_mgen s) (s_queue s) (s_handles s) (s_lrefs s) (s_ndeliv s) (s_ncall s) (s_allocs s) (s_busy s) (s_dead s) v (s_rel s) (s_out s).
-Definition set_rel (v : list (Z * Z)) (s : state) : state := mkState (s_shut s) (s_boot s) (s_sendlk s) (s_qs s) (s_qgen s) (s_ans s) (s_exp s) (s_egen s) (s_imp s) (s_impgen s) (s_emb s) (s_mgen s) (s_queue s) (s_handles s) (s_lrefs s) (s_ndeliv s) (s_ncall s) (s_allocs s) (s_busy s) (s_dead s) (s_sent s) v (s_out s).
-Definition set_out (v : list output) (s : state) : state := mkState (s_shut s) (s_boot s) (s_sendlk s) (s_qs s) (s_qgen s) (s_ans s) (s_exp s) (s_egen s) (s_imp s) (s_impgen s) (s_emb s) (s_mgen s) (s_queue s) (s_handles s) (s_lrefs s) (s_ndeliv s) (s_ncall s) (s_allocs s) (s_busy s) (s_dead s) (s_sent s) (s_rel s) v.
+Definition set_shut (v : bool) (s : state) : state := mkState v (s_boot s) (s_qs s) (s_qgen s) (s_ans s) (s_exp s) (s_egen s) (s_imp s) (s_impgen s) (s_emb s) (s_mgen s) (s_queue s) (s_handles s) (s_lrefs s) (s_ndeliv s) (s_ncall s) (s_allocs s) (s_busy s) (s_dead s) (s_lcalls s) (s_ecalls s) (s_sent s) (s_rel s) (s_out s).
+Definition set_boot (v : bool) (s : state) : state := mkState (s_shut s) v (s_qs s) (s_qgen s) (s_ans s) (s_exp s) (s_egen s) (s_imp s) (s_impgen s) (s_emb s) (s_mgen s) (s_queue s) (s_handles s) (s_lrefs s) (s_ndeliv s) (s_ncall s) (s_allocs s) (s_busy s) (s_dead s) (s_lcalls s) (s_ecalls s) (s_sent s) (s_rel s) (s_out s).
+Definition set_qs (v : tbl question) (s : state) : state := mkState (s_shut s) (s_boot s) v (s_qgen s) (s_ans s) (s_exp s) (s_egen s) (s_imp s) (s_impgen s) (s_emb s) (s_mgen s) (s_queue s) (s_handles s) (s_lrefs s) (s_ndeliv s) (s_ncall s) (s_allocs s) (s_busy s) (s_dead s) (s_lcalls s) (s_ecalls s) (s_sent s) (s_rel s) (s_out s).
+Definition set_qgen (v : idgen) (s : state) : state := mkState (s_shut s) (s_boot s) (s_qs s) v (s_ans s) (s_exp s) (s_egen s) (s_imp s) (s_impgen s) (s_emb s) (s_mgen s) (s_queue s) (s_handles s) (s_lrefs s) (s_ndeliv s) (s_ncall s) (s_allocs s) (s_busy s) (s_dead s) (s_lcalls s) (s_ecalls s) (s_sent s) (s_rel s) (s_out s).
+Definition set_ans (v : list (Z * answer)) (s : state) : state := mkState (s_shut s) (s_boot s) (s_qs s) (s_qgen s) v (s_exp s) (s_egen s) (s_imp s) (s_impgen s) (s_emb s) (s_mgen s) (s_queue s) (s_handles s) (s_lrefs s) (s_ndeliv s) (s_ncall s) (s_allocs s) (s_busy s) (s_dead s) (s_lcalls s) (s_ecalls s) (s_sent s) (s_rel s) (s_out s).
+Definition set_exp (v : tbl expent) (s : state) : state := mkState (s_shut s) (s_boot s) (s_qs s) (s_qgen s) (s_ans s) v (s_egen s) (s_imp s) (s_impgen s) (s_emb s) (s_mgen s) (s_queue s) (s_handles s) (s_lrefs s) (s_ndeliv s) (s_ncall s) (s_allocs s) (s_busy s) (s_dead s) (s_lcalls s) (s_ecalls s) (s_sent s) (s_rel s) (s_out s).
+Definition set_egen (v : idgen) (s : state) : state := mkState (s_shut s) (s_boot s) (s_qs s) (s_qgen s) (s_ans s) (s_exp s) v (s_imp s) (s_impgen s) (s_emb s) (s_mgen s) (s_queue s) (s_handles s) (s_lrefs s) (s_ndeliv s) (s_ncall s) (s_allocs s) (s_busy s) (s_dead s) (s_lcalls s) (s_ecalls s) (s_sent s) (s_rel s) (s_out s).
+Definition set_imp (v : list (Z * impent)) (s : state) : state := mkState (s_shut s) (s_boot s) (s_qs s) (s_qgen s) (s_ans s) (s_exp s) (s_egen s) v (s_impgen s) (s_emb s) (s_mgen s) (s_queue s) (s_handles s) (s_lrefs s) (s_ndeliv s) (s_ncall s) (s_allocs s) (s_busy s) (s_dead s) (s_lcalls s) (s_ecalls s) (s_sent s) (s_rel s) (s_out s).
+Definition set_impgen (v : Z) (s : state) : state := mkState (s_shut s) (s_boot s) (s_qs s) (s_qgen s) (s_ans s) (s_exp s) (s_egen s) (s_imp s) v (s_emb s) (s_mgen s) (s_queue s) (s_handles s) (s_lrefs s) (s_ndeliv s) (s_ncall s) (s_allocs s) (s_busy s) (s_dead s) (s_lcalls s) (s_ecalls s) (s_sent s) (s_rel s) (s_out s).
+Definition set_emb (v : tbl embent) (s : state) : state := mkState (s_shut s) (s_boot s) (s_qs s) (s_qgen s) (s_ans s) (s_exp s) (s_egen s) (s_imp s) (s_impgen s) v (s_mgen s) (s_queue s) (s_handles s) (s_lrefs s) (s_ndeliv s) (s_ncall s) (s_allocs s) (s_busy s) (s_dead s) (s_lcalls s) (s_ecalls s) (s_sent s) (s_rel s) (s_out s).
+Definition set_mgen (v : idgen) (s : state) : state := mkState (s_shut s) (s_boot s) (s_qs s) (s_qgen s) (s_ans s) (s_exp s) (s_egen s) (s_imp s) (s_impgen s) (s_emb s) v (s_queue s) (s_handles s) (s_lrefs s) (s_ndeliv s) (s_ncall s) (s_allocs s) (s_busy s) (s_dead s) (s_lcalls s) (s_ecalls s) (s_sent s) (s_rel s) (s_out s).
+Definition set_queue (v : list Z) (s : state) : state := mkState (s_shut s) (s_boot s) (s_qs s) (s_qgen s) (s_ans s) (s_exp s) (s_egen s) (s_imp s) (s_impgen s) (s_emb s) (s_mgen s) v (s_handles s) (s_lrefs s) (s_ndeliv s) (s_ncall s) (s_allocs s) (s_busy s) (s_dead s) (s_lcalls s) (s_ecalls s) (s_sent s) (s_rel s) (s_out s).
+Definition set_handles (v : list hstate) (s : state) : state := mkState (s_shut s) (s_boot s) (s_qs s) (s_qgen s) (s_ans s) (s_exp s) (s_egen s) (s_imp s) (s_impgen s) (s_emb s) (s_mgen s) (s_queue s) v (s_lrefs s) (s_ndeliv s) (s_ncall s) (s_allocs s) (s_busy s) (s_dead s) (s_lcalls s) (s_ecalls s) (s_sent s) (s_rel s) (s_out s).
+Definition set_lrefs (v : list (Z * Z)) (s : state) : state := mkState (s_shut s) (s_boot s) (s_qs s) (s_qgen s) (s_ans s) (s_exp s) (s_egen s) (s_imp s) (s_impgen s) (s_emb s) (s_mgen s) (s_queue s) (s_handles s) v (s_ndeliv s) (s_ncall s) (s_allocs s) (s_busy s) (s_dead s) (s_lcalls s) (s_ecalls s) (s_sent s) (s_rel s) (s_out s).
+Definition set_ndeliv (v : Z) (s : state) : state := mkState (s_shut s) (s_boot s) (s_qs s) (s_qgen s) (s_ans s) (s_exp s) (s_egen s) (s_imp s) (s_impgen s) (s_emb s) (s_mgen s) (s_queue s) (s_handles s) (s_lrefs s) v (s_ncall s) (s_allocs s) (s_busy s) (s_dead s) (s_lcalls s) (s_ecalls s) (s_sent s) (s_rel s) (s_out s).
+Definition set_ncall (v : Z) (s : state) : state := mkState (s_shut s) (s_boot s) (s_qs s) (s_qgen s) (s_ans s) (s_exp s) (s_egen s) (s_imp s) (s_impgen s) (s_emb s) (s_mgen s) (s_queue s) (s_handles s) (s_lrefs s) (s_ndeliv s) v (s_allocs s) (s_busy s) (s_dead s) (s_lcalls s) (s_ecalls s) (s_sent s) (s_rel s) (s_out s).
+Definition set_allocs (v : Z) (s : state) : state := mkState (s_shut s) (s_boot s) (s_qs s) (s_qgen s) (s_ans s) (s_exp s) (s_egen s) (s_imp s) (s_impgen s) (s_emb s) (s_mgen s) (s_queue s) (s_handles s) (s_lrefs s) (s_ndeliv s) (s_ncall s) v (s_busy s) (s_dead s) (s_lcalls s) (s_ecalls s) (s_sent s) (s_rel s) (s_out s).
+Definition set_busy (v : list (Z * Z * Z)) (s : state) : state := mkState (s_shut s) (s_boot s) (s_qs s) (s_qgen s) (s_ans s) (s_exp s) (s_egen s) (s_imp s) (s_impgen s) (s_emb s) (s_mgen s) (s_queue s) (s_handles s) (s_lrefs s) (s_ndeliv s) (s_ncall s) (s_allocs s) v (s_dead s) (s_lcalls s) (s_ecalls s) (s_sent s) (s_rel s) (s_out s).
+Definition set_dead (v : list (Z * Z)) (s : state) : state := mkState (s_shut s) (s_boot s) (s_qs s) (s_qgen s) (s_ans s) (s_exp s) (s_egen s) (s_imp s) (s_impgen s) (s_emb s) (s_mgen s) (s_queue s) (s_handles s) (s_lrefs s) (s_ndeliv s) (s_ncall s) (s_allocs s) (s_busy s) v (s_lcalls s) (s_ecalls s) (s_sent s) (s_rel s) (s_out s).
+Definition set_lcalls (v : list (Z * Z)) (s : state) : state := mkState (s_shut s) (s_boot s) (s_qs s) (s_qgen s) (s_ans s) (s_exp s) (s_egen s) (s_imp s) (s_impgen s) (s_emb s) (s_mgen s) (s_queue s) (s_handles s) (s_lrefs s) (s_ndeliv s) (s_ncall s) (s_allocs s) (s_busy s) (s_dead s) v (s_ecalls s) (s_sent s) (s_rel s) (s_out s).
+Definition set_ecalls (v : list (Z * Z * Z)) (s : state) : state := mkState (s_shut s) (s_boot s) (s_qs s) (s_qgen s) (s_ans s) (s_exp s) (s_egen s) (s_imp s) (s_impgen s) (s_emb s) (s_mgen s) (s_queue s) (s_handles s) (s_lrefs s) (s_ndeliv s) (s_ncall s) (s_allocs s) (s_busy s) (s_dead s) (s_lcalls s) v (s_sent s) (s_rel s) (s_out s).
+Definition set_sent (v : list (Z * Z)) (s : state) : state := mkState (s_shut s) (s_boot s) (s_qs s) (s_qgen s) (s_ans s) (s_exp s) (s_egen s) (s_imp s) (s_impgen s) (s_emb s) (s_mgen s) (s_queue s) (s_handles s) (s_lrefs s) (s_ndeliv s) (s_ncall s) (s_allocs s) (s_busy s) (s_dead s) (s_lcalls s) (s_ecalls s) v (s_rel s) (s_out s).
+Definition set_rel (v : list (Z * Z)) (s : state) : state := mkState (s_shut s) (s_boot s) (s_qs s) (s_qgen s) (s_ans s) (s_exp s) (s_egen s) (s_imp s) (s_impgen s) (s_emb s) (s_mgen s) (s_queue s) (s_handles s) (s_lrefs s) (s_ndeliv s) (s_ncall s) (s_allocs s) (s_busy s) (s_dead s) (s_lcalls s) (s_ecalls s) (s_sent s) v (s_out s).
+Definition set_out (v : list output) (s : state) : state := mkState (s_shut s) (s_boot s) (s_qs s) (s_qgen s) (s_ans s) (s_exp s) (s_egen s) (s_imp s) (s_impgen s) (s_emb s) (s_mgen s) (s_queue s) (s_handles s) (s_lrefs s) (s_ndeliv s) (s_ncall s) (s_allocs s) (s_busy s) (s_dead s) (s_lcalls s) (s_ecalls s) (s_sent s) (s_rel s) v.
 
 (* ------------------------------------------------------------------ initial state *)
 Definition init (boot : bool) : state :=
-  mkState false boot false [] gen0 [] [] gen0 [] 0 [] gen0 [] [] (if boot then [(0, 1)] else []) 0 0 0 [] [] [] [] [].
+  mkState false boot [] gen0 [] [] gen0 [] 0 [] gen0 [] [] (if boot then [(0, 1)] else []) 0 0 0 [] [] [] [] [] [] [].
 
 Definition hres := res (state * list output * bool).   (* bool: the handler's error aborts the connection *)
 
@@ -298,7 +300,7 @@ Definition cap_eqb (x y : cap) : bool :=
   | CNull, CNull => true
   | CLocal a, CLocal b => a =? b
   | CImp a g, CImp b h => (a =? b) && (g =? h)
-  | CEmb a _, CEmb b _ => a =? b
+  | CEmb a, CEmb b => a =? b
   | _, _ => false                    (* every ErrorClient is its own hook *)
   end.
 
@@ -328,8 +330,7 @@ Definition imp_shutdown (c : cfg) (i g : Z) (s : state) : res (state * list outp
        | None => if fx20 c then Ok (s, []) else Panic W_F20
        | Some e =>
          if i_gen e =? g then
-           if s_sendlk s then Stuck W_F14
-           else Ok (set_imp (adel i (s_imp s)) s, [ORelease i (i_wire e)])
+           Ok (set_imp (adel i (s_imp s)) s, [ORelease i (i_wire e)])
          else Ok (s, [])
        end.
 
@@ -363,12 +364,17 @@ Definition add_import (c : cfg) (i : Z) (s : state) : state * cap :=
   end.
 
 (* ------------------------------------------------------------------ embargoes (export.go) *)
-Definition emb_release (e j : Z) (s : state) : state :=
+(* the references of the connection on a local capability held through x *)
+Definition lref_cap (d : Z) (x : cap) (s : state) : state :=
+  match x with CLocal j => lref d j s | _ => s end.
+Definition emb_busy (e : Z) (s : state) : bool := existsb (fun p => fst (fst p) =? e) (s_ecalls s).
+Definition emb_release (e : Z) (s : state) : state :=
   match tget e (s_emb s) with
   | Some em =>
     if 0 <? e_refs em then
-      let s1 := set_emb (replace_nth (Z.to_nat e) (Some (mkEmb (e_srv em) (e_refs em - 1))) (s_emb s)) s in
-      if e_refs em - 1 =? 0 then lref (-1) (e_srv em) s1    (* embargo.Shutdown: e.c.Release() *)
+      let s1 := set_emb (replace_nth (Z.to_nat e) (Some (mkEmb (e_cap em) (e_refs em - 1))) (s_emb s)) s in
+      (* embargo.Shutdown: e.c.Release() -- not before the calls blocked on the hook are through *)
+      if (e_refs em - 1 =? 0) && negb (emb_busy e s) then lref_cap (-1) (e_cap em) s1
       else s1
     else s
   | None => s
@@ -379,7 +385,7 @@ Definition release_cap (c : cfg) (x : cap) (s : state) : res (state * list outpu
   | CNull | CErr => Ok (s, [])
   | CLocal j => Ok (lref (-1) j s, [])
   | CImp i g => imp_release c i g s
-  | CEmb e j => Ok (emb_release e j s, [])
+  | CEmb e => Ok (emb_release e s, [])
   end.
 Fixpoint release_caps (c : cfg) (l : list cap) (s : state) : res (state * list output) :=
   match l with
@@ -396,24 +402,42 @@ Definition addref_cap (x : cap) (s : state) : state :=
                 then set_imp (aput i (mkImp (i_wire e) (i_gen e) (i_refs e + 1)) (s_imp s)) s else s
     | None => s
     end
-  | CEmb e j =>
+  | CEmb e =>
     match tget e (s_emb s) with
     | Some em => if 0 <? e_refs em
-                 then set_emb (replace_nth (Z.to_nat e) (Some (mkEmb (e_srv em) (e_refs em + 1))) (s_emb s)) s else s
+                 then set_emb (replace_nth (Z.to_nat e) (Some (mkEmb (e_cap em) (e_refs em + 1))) (s_emb s)) s else s
     | None => s
     end
   | _ => s
   end.
 
 (* embargo.lift: p.Fulfill(e.c) moves the promised client's references to the local server *)
-Definition rewrite_handle (e j : Z) (h : hstate) : hstate :=
+Definition rewrite_handle (e : Z) (x : cap) (h : hstate) : hstate :=
   match h with
-  | HCap (CEmb e' _) => if e' =? e then HCap (CLocal j) else h
+  | HCap (CEmb e') => if e' =? e then HCap x else h
   | _ => h
   end.
-Definition lift (c : cfg) (e : Z) (em : embent) (s : state) : res state :=
-  if e_refs em =? 0 then (if fx22 c then Ok s else Panic W_F22)
-  else Ok (lref (e_refs em - 1) (e_srv em) (set_handles (map (rewrite_handle e (e_srv em)) (s_handles s)) s)).
+(* the local calls blocked in embargo.Send are let through, in the order they were made *)
+Fixpoint wake_calls (e : Z) (x : cap) (l : list (Z * Z * Z)) (s : state) : state * list output :=
+  match l with
+  | [] => (s, [])
+  | (e', n, tag) :: r =>
+    if e' =? e then
+      match x with
+      | CLocal j =>
+        let s1 := set_ndeliv (s_ndeliv s + 1) (set_lcalls ((s_ndeliv s, n) :: s_lcalls s) s) in
+        let '(s2, o2) := wake_calls e x r s1 in (s2, LDeliver j tag (s_ndeliv s) :: o2)
+      | _ => let '(s2, o2) := wake_calls e x r s in (s2, LAppRes n 1 :: o2)
+      end
+    else wake_calls e x r s
+  end.
+Definition lift (c : cfg) (e : Z) (em : embent) (s : state) : res (state * list output) :=
+  if (e_refs em =? 0) && negb (emb_busy e s) then (if fx22 c then Ok (s, []) else Panic W_F22)
+  else
+    let d := if e_refs em =? 0 then -1 else e_refs em - 1 in
+    let s1 := lref_cap d (e_cap em) (set_handles (map (rewrite_handle e (e_cap em)) (s_handles s)) s) in
+    let '(s2, o2) := wake_calls e (e_cap em) (s_ecalls s1) s1 in
+    Ok (set_ecalls (filter (fun p => negb (fst (fst p) =? e)) (s_ecalls s2)) s2, o2).
 
 (* ------------------------------------------------------------------ receiving payloads (rpc.go recvCap, recvPayload) *)
 Inductive rp := RPOk (s : state) (tab : list cap) (loc : list bool) | RPErr (s : state) (partial : list cap).
@@ -535,7 +559,6 @@ Definition zremove_q (id : Z) (s : state) : state := set_queue (zremove id (s_qu
 
 (* answer.sendException (with the bookkeeping of its callers: flags, destroy when finished) *)
 Definition send_exception (c : cfg) (id : Z) (a : answer) (s : state) : hres :=
-  if negb (s_shut s) && s_sendlk s then Stuck W_F14 else
   let outs := if s_shut s then [] else [OReturnExc id] in
   let a1 := mark_done true a in
   let s0 := zremove_q id s in
@@ -545,7 +568,6 @@ Definition send_exception (c : cfg) (id : Z) (a : answer) (s : state) : hres :=
 
 (* answer.sendReturn: results content k, cap table rct *)
 Definition send_return (c : cfg) (id : Z) (a : answer) (k : content) (rct : list (option Z)) (s : state) : hres :=
-  if negb (s_shut s) && s_sendlk s then Stuck W_F14 else
   do '(s1, ds, refs) <- fill_caps c (rct_caps rct) s;
   let outs := if s_shut s then [] else [OReturnRes id ds] in
   let a1 := mkAns true (a_fin a) true (a_rrc a) (a_ph a) false k rct refs AIdle (a_args a) (a_mok a) (a_tag a) (a_deliv a) in
@@ -634,10 +656,10 @@ Fixpoint release_all_args (c : cfg) (l : list (Z * answer)) (s : state) : res (s
   | [] => Ok (s, [])
   | (_, a) :: r => do '(s1, o1) <- release_caps c (a_args a) s; do '(s2, o2) <- release_all_args c r s1; Ok (s2, o1 ++ o2)
   end.
-Fixpoint lift_all (c : cfg) (t : tbl embent) (i : Z) (s : state) : res state :=
+Fixpoint lift_all (c : cfg) (t : tbl embent) (i : Z) (s : state) : res (state * list output) :=
   match t with
-  | [] => Ok s
-  | Some em :: r => do s1 <- lift c i em s; lift_all c r (i + 1) s1
+  | [] => Ok (s, [])
+  | Some em :: r => do '(s1, o1) <- lift c i em s; do '(s2, o2) <- lift_all c r (i + 1) s1; Ok (s2, o1 ++ o2)
   | None :: r => lift_all c r (i + 1) s
   end.
 Fixpoint release_answers (c : cfg) (l : list (Z * answer)) (s : state) : res (state * list output) :=
@@ -668,23 +690,22 @@ Definition do_shutdown (c : cfg) (abort : bool) (s : state) : res (state * list 
   let oq := fail_questions (s_qs s1) 0 in
   let answers := s_ans s1 in
   let exports := s_exp s1 in
-  let embargoes := s_emb s1 in
   let s2 := set_handles (map fail_handle (s_handles s1))
-            (set_queue [] (set_busy [] (set_dead [] (set_imp [] (set_exp [] (set_qs [] (set_ans [] (set_emb [] s1)))))))) in
+            (set_queue [] (set_busy [] (set_dead [] (set_imp [] (set_exp [] (set_qs [] (set_ans [] s1))))))) in
   let s3 := if s_boot s2 then set_boot false (lref (-1) 0 s2) else s2 in
   do '(s4, o4) <- release_caps c (exp_clients exports) s3;
-  do s5 <- lift_all c embargoes 0 s4;
+  (* an exported embargoed client may just have lost its last reference *)
+  let embargoes := s_emb s4 in
+  do '(s5, o5) <- lift_all c embargoes 0 (set_emb [] s4);
   do '(s6, o6) <- release_answers c answers s5;
-  Ok (s6, o1 ++ oq ++ o4 ++ o6 ++ (if abort then [OAbort] else [])).
+  Ok (s6, o1 ++ oq ++ o4 ++ o5 ++ o6 ++ (if abort then [OAbort] else [])).
 
 (* ------------------------------------------------------------------ handlers for peer messages (rpc.go) *)
-Definition need_sender (s : state) : res unit := if s_sendlk s then Stuck W_F14 else Ok tt.
 
 Definition handle_bootstrap (c : cfg) (id : Z) (s : state) : hres :=
   match aget id (s_ans s) with
   | Some _ => Ok (s, [], true)                                  (* answer ID reused *)
   | None =>
-    do _ <- need_sender s;
     let a := new_answer [] true 0 in
     if negb (s_boot s) then send_exception c id a s
     else
@@ -711,11 +732,10 @@ Definition parse_target (tg : target) : option ptarget :=
 Definition placeholder : answer := mkAns false false false false true false KNull [] [] AIdle [] true 0 (-1).
 
 Definition handle_call (c : cfg) (id : Z) (tg : target) (params : option payload) (toCaller mok : bool) (tag : Z) (s : state) : hres :=
-  if negb toCaller then do _ <- need_sender s; Ok (s, [OUnimpl], false)
+  if negb toCaller then Ok (s, [OUnimpl], false)
   else match aget id (s_ans s) with
   | Some _ => Ok (s, [], true)                                  (* answer ID reused *)
   | None =>
-    do _ <- need_sender s;
     (* parseCall *)
     do '(s1, parsed, torelease) <-
       match params with
@@ -762,7 +782,8 @@ Definition handle_call (c : cfg) (id : Z) (tg : target) (params : option payload
             | AIdle => Panic W_PCALL
             | _ =>
               let s2 := set_queue (s_queue s1 ++ [id]) (set_ans (aput id (set_a_st (AQueued t x) a) (s_ans s1)) s1) in
-              Ok (if fx14 c then s2 else set_sendlk true s2, [], false)
+              (* before fix F14 the sender lock is never released: the connection is wedged *)
+              if fx14 c then Ok (s2, [], false) else Stuck W_F14
             end
         end
       end
@@ -778,11 +799,11 @@ Fixpoint embargo_caps (c : cfg) (qid : Z) (k : content) (called : list (list Z))
     match transform_eval k x with
     | TIface i =>
       match znth i tab, znth i loc with
-      | Some (CLocal j), Some true =>
+      | Some lc, Some true =>
         do '(e, g) <- gen_next (s_mgen s);
-        do t <- tput e (mkEmb j 1) (s_emb s);
+        do t <- tput e (mkEmb lc 1) (s_emb s);
         let s1 := set_allocs (s_allocs s + 1) (set_mgen g (set_emb t s)) in
-        do '(s2, tab2, o2) <- embargo_caps c qid k r loc (replace_nth (Z.to_nat i) (CEmb e j) tab) s1;
+        do '(s2, tab2, o2) <- embargo_caps c qid k r loc (replace_nth (Z.to_nat i) (CEmb e) tab) s1;
         Ok (s2, tab2, ODisembargoS e qid x :: o2)
       | _, _ => embargo_caps c qid k r loc tab s
       end
@@ -837,7 +858,6 @@ Definition handle_return (c : cfg) (qid : Z) (rpc : bool) (k : retk) (s : state)
          let '(s4, cl, err) := release_exports (q_prefs q) s3 in
          do '(s5, o5) <- release_caps c cl s4; Ok (s5, o5, err)
        else Ok (s3, [], false));
-    do _ <- need_sender s5;
     Ok (set_qgen (gen_remove qid (s_qgen s5)) s5, disemb ++ [OFinish qid false] ++ o3 ++ o5, err)
   end.
 
@@ -850,7 +870,6 @@ Definition handle_finish (c : cfg) (id : Z) (rrc : bool) (s : state) : hres :=
       let a1 := set_a_fin rrc a in
       if negb (a_ret a) then Ok (set_ans (aput id a1 (s_ans s)) s, [], false)
       else
-        do _ <- (if a_ph a then Ok tt else need_sender s);       (* lockSender for releaseMsg *)
         destroy c id a1 s
   end.
 
@@ -871,14 +890,14 @@ Definition handle_disembargo (c : cfg) (tg : target) (cx : dctx) (s : state) : h
       match tget e (s_emb s) with
       | None => Ok (s, [], true)
       | Some em =>
-        do s1 <- lift c e em (set_mgen (gen_remove e (s_mgen s)) (set_emb (tclear e (s_emb s)) s));
-        Ok (s1, [], false)
+        do '(s1, o1) <- lift c e em (set_mgen (gen_remove e (s_mgen s)) (set_emb (tclear e (s_emb s)) s));
+        Ok (s1, o1, false)
       end
     | DxSender _ =>
       (* answers hold local capabilities only, so the request can never name an import:
          every path ends in a protocol error *)
       Ok (s, [], true)
-    | DxOther => do _ <- need_sender s; Ok (s, [OUnimpl], false)
+    | DxOther => Ok (s, [OUnimpl], false)
     end
   end.
 
@@ -899,7 +918,6 @@ Definition app_bootstrap (c : cfg) (s : state) : hres :=
   let h := Z.of_nat (length (s_handles s)) in
   if s_shut s then Ok (set_handles (s_handles s ++ [HCap CErr]) s, [], false)
   else
-    do _ <- need_sender s;
     do '(s1, id) <- new_question (mkQ (Some h) (-1) false [] [] None) s;
     Ok (set_handles (s_handles s1 ++ [HBoot id]) s1, [OBootstrap id], false).
 
@@ -918,7 +936,6 @@ Definition app_pipe (c : cfg) (q0 : Z) (x : list Z) (caps : list acap) (s : stat
   | Some q =>
     if q_fin q then Ok (s0, [LAppRes n 1], false)
     else
-      do _ <- need_sender s0;
       let s1 := set_qs (replace_nth (Z.to_nat q0) (Some (mark_called x q)) (s_qs s0)) s0 in
       do '(s2, id) <- new_question (mkQ None n false [] [] None) s1;
       do '(s3, ds, refs) <- fill_caps c (map (acap_cap s2) caps) s2;
@@ -927,7 +944,7 @@ Definition app_pipe (c : cfg) (q0 : Z) (x : list Z) (caps : list acap) (s : stat
   end.
 
 (* importClient.Send *)
-Definition app_call (c : cfg) (h : Z) (caps : list acap) (s : state) : hres :=
+Definition app_call (c : cfg) (h : Z) (caps : list acap) (tag : Z) (s : state) : hres :=
   match hget h s with
   | HBoot q0 => app_pipe c q0 [] caps s
   | HCap (CImp i g) =>
@@ -935,11 +952,17 @@ Definition app_call (c : cfg) (h : Z) (caps : list acap) (s : state) : hres :=
     if s_shut s0 then Ok (s0, [LAppRes n 3], false)
     else if negb (imp_current i g s0) then Ok (s0, [LAppRes n 3], false)
     else
-      do _ <- need_sender s0;
       do '(s2, id) <- new_question (mkQ None n false [] [] None) s0;
       do '(s3, ds, refs) <- fill_caps c (map (acap_cap s2) caps) s2;
       let s4 := if fx19 c then set_qs (replace_nth (Z.to_nat id) (Some (mkQ None n false [] refs None)) (s_qs s3)) s3 else s3 in
       Ok (s4, [OCall id (OTImp i) ds], false)
+  | HCap (CLocal j) =>
+    (* the handle has resolved to a capability of this vat: the call goes to the server directly *)
+    let '(s0, n) := next_call s in
+    Ok (set_ndeliv (s_ndeliv s0 + 1) (set_lcalls ((s_ndeliv s0, n) :: s_lcalls s0) s0), [LDeliver j tag (s_ndeliv s0)], false)
+  | HCap (CEmb e) =>
+    (* embargo.Send blocks until the Disembargo has come back *)
+    let '(s0, n) := next_call s in Ok (set_ecalls (s_ecalls s0 ++ [(e, n, tag)]) s0, [], false)
   | _ => let '(s0, n) := next_call s in Ok (s0, [LAppRes n 1], false)
   end.
 
@@ -950,7 +973,6 @@ Definition app_hold (c : cfg) (h : Z) (s : state) : hres :=
   | HCap (CImp i g) =>
     if s_shut s0 || negb (imp_current i g s0) then Ok (s0, [LAppRes n 3], false)
     else
-      do _ <- need_sender s0;
       do '(s2, id) <- new_question (mkQ None n false [] [] (Some (i, g, []))) s0;
       Ok (set_busy (busy_add i g 1 (s_busy s2)) s2, [], false)
   | _ => Ok (s0, [LAppRes n 1], false)
@@ -970,7 +992,6 @@ Definition app_unhold (c : cfg) (n : Z) (s : state) : hres :=
     match q_held q with
     | Some (i, g, _) =>
       if s_shut s then Ok (s, [], false) else
-      do _ <- need_sender s;
       let s1 := set_qs (replace_nth (Z.to_nat qid) (Some (mkQ None (q_call q) (q_fin q) [] [] None)) (s_qs s)) s in
       let s2 := set_busy (busy_add i g (-1) (s_busy s1)) s1 in
       if (busy_get i g (s_busy s2) =? 0) && dead_mem i g (s_dead s2) then
@@ -984,7 +1005,6 @@ Definition app_unhold (c : cfg) (n : Z) (s : state) : hres :=
 
 (* question.handleCancel on cancellation of the call's context *)
 Definition cancel_question (qid : Z) (q : question) (s : state) : res (state * list output) :=
-  do _ <- need_sender s;
   Ok (set_qs (replace_nth (Z.to_nat qid) (Some (mkQ (q_boot q) (q_call q) true (q_called q) (q_prefs q) (q_held q))) (s_qs s)) s,
       [OFinish qid true]).
 Definition app_cancel (c : cfg) (qid : Z) (s : state) : hres :=
@@ -1043,7 +1063,11 @@ Definition direct_queued (ans : list (Z * answer)) (q : list Z) (r : Z) : list Z
 
 Definition app_return (c : cfg) (k : Z) (r : appret) (s : state) : hres :=
   match find_running k (s_ans s) with
-  | None => Ok (s, [], false)
+  | None =>
+    match aget k (s_lcalls s) with
+    | Some n => Ok (set_lcalls (adel k (s_lcalls s)) s, [LAppRes n (match r with ARExc => 1 | _ => 0 end)], false)
+    | None => Ok (s, [], false)
+    end
   | Some (id, a) =>
     do '(s1, o1) <- release_caps c (a_args a) s;
     let a1 := set_a_args [] a in
@@ -1077,10 +1101,10 @@ Definition handler (c : cfg) (e : event) (s : state) : hres :=
   | MDisembargo tg cx => handle_disembargo c tg cx s
   | MUnimplemented => Ok (s, [], false)
   | MGarbage => Ok (s, [], false)
-  | MUnknown => do _ <- need_sender s; Ok (s, [OUnimpl], false)
+  | MUnknown => Ok (s, [OUnimpl], false)
   | MAbort | AClose => Ok (s, [], false)      (* see [step] *)
   | ABootstrap => app_bootstrap c s
-  | ACall h caps _ => app_call c h caps s
+  | ACall h caps tag => app_call c h caps tag s
   | APipe q x caps _ => app_pipe c q x caps s
   | AReturn k r => app_return c k r s
   | ARelease h => app_release c h s
